@@ -24,6 +24,13 @@ func normL(l lval) string {
 	if l.null {
 		return "NULL"
 	}
+	if parts, ok := l.v.([]lval); ok { // a composite key
+		var out []string
+		for _, p := range parts {
+			out = append(out, normL(p))
+		}
+		return strings.Join(out, "|")
+	}
 	return normDB(l.v)
 }
 
@@ -238,7 +245,8 @@ type model struct {
 	table  string
 	typ    reflect.Type
 	fields []*field
-	pk     *field
+	pk     *field   // first (or only) key field
+	pks    []*field // all key fields
 	rows   []seedRow
 	maxKey int64
 }
@@ -317,14 +325,18 @@ func genModel(r *core.Rand, table string) *model {
 		m.fields = append(m.fields, f)
 		return f
 	}
-	switch r.Intn(5) {
+	switch r.Intn(6) {
 	case 0:
 		m.pk = add(&field{name: "ID", col: "id", k: kUint, pk: true, canCreate: true, canUpdate: true})
 	case 1:
 		m.pk = add(&field{name: "Code", col: "code", k: kString, tag: "primaryKey", pk: true, canCreate: true, canUpdate: true})
+	case 2:
+		m.pk = add(&field{name: "K1", col: "k1", k: kInt64, tag: "primaryKey;autoIncrement:false", pk: true, canCreate: true, canUpdate: true})
+		add(&field{name: "K2", col: "k2", k: kString, tag: "primaryKey", pk: true, canCreate: true, canUpdate: true})
 	default:
 		m.pk = add(&field{name: "ID", col: "id", k: kInt64, tag: "primaryKey", pk: true, canCreate: true, canUpdate: true})
 	}
+	npk := len(m.fields)
 	names := r.Perm(len(namePool))
 	n := r.Range(3, 7)
 	plain := 0
@@ -363,13 +375,14 @@ func genModel(r *core.Rand, table string) *model {
 		add(&field{name: a.name, col: a.col, k: a.k, tag: a.tag, canCreate: true, canUpdate: true, autoUpd: a.upd, autoCre: a.cre})
 	}
 	// shuffle the non-key fields so that auto-time fields are not always last
-	rest := m.fields[1:]
+	rest := m.fields[npk:]
 	p := r.Perm(len(rest))
 	sh := make([]*field, len(rest))
 	for i, j := range p {
 		sh[i] = rest[j]
 	}
-	copy(m.fields[1:], sh)
+	copy(m.fields[npk:], sh)
+	m.pks = m.fields[:npk]
 	var sf []reflect.StructField
 	for i, f := range m.fields {
 		f.idx = i
@@ -385,20 +398,25 @@ func genModel(r *core.Rand, table string) *model {
 	ks := r.Perm(9)[:nr]
 	for ri, kn := range ks {
 		row := seedRow{cells: make([]lval, len(m.fields))}
-		for _, f := range m.fields {
-			if f.pk {
-				if f.k.class == "string" {
-					row.key = lval{v: fmt.Sprintf("k%d", kn+1)}
-				} else {
-					row.key = lval{v: int64(kn + 1)}
-					if int64(kn+1) > m.maxKey {
-						m.maxKey = int64(kn + 1)
-					}
-				}
-				row.cells[f.idx] = row.key
-				continue
+		switch {
+		case npk == 2:
+			// 3 x 3 key grid: every key part is shared by several rows
+			row.key = lval{v: []lval{{v: int64(kn/3 + 1)}, {v: string(rune('a' + kn%3))}}}
+		case m.pk.k.class == "string":
+			row.key = lval{v: fmt.Sprintf("k%d", kn+1)}
+		default:
+			row.key = lval{v: int64(kn + 1)}
+			if int64(kn+1) > m.maxKey {
+				m.maxKey = int64(kn + 1)
 			}
-			row.cells[f.idx] = sentinel(f, ri)
+		}
+		for i, part := range m.keyParts(row.key) {
+			row.cells[m.pks[i].idx] = part
+		}
+		for _, f := range m.fields {
+			if !f.pk {
+				row.cells[f.idx] = sentinel(f, ri)
+			}
 		}
 		m.rows = append(m.rows, row)
 	}
@@ -449,24 +467,66 @@ func (m *model) createSQL() string {
 	var cols []string
 	for _, f := range m.fields {
 		c := "`" + f.col + "` " + f.k.sql
-		if f.pk {
+		if f.pk && !m.composite() {
 			c += " PRIMARY KEY"
 		}
 		cols = append(cols, c)
 	}
+	if m.composite() {
+		cols = append(cols, "PRIMARY KEY (`k1`, `k2`)")
+	}
 	return "CREATE TABLE `" + m.table + "` (" + strings.Join(cols, ", ") + ")"
 }
 
-func (m *model) keyExists(k lval) bool {
-	for _, r := range m.rows {
-		if normL(r.key) == normL(k) {
-			return true
-		}
+// keyParts splits a key value into the values of the key fields.
+func (m *model) keyParts(k lval) []lval {
+	if parts, ok := k.v.([]lval); ok {
+		return parts
 	}
-	return false
+	return []lval{k}
 }
 
-func (m *model) keyLit(k lval) string { return goLit(m.pk.k, k) }
+func (m *model) composite() bool { return len(m.pks) > 1 }
+
+// keyIsZero: a zero key (database-assigned on insert, no condition on update).
+func (m *model) keyIsZero(k lval) bool {
+	for i, part := range m.keyParts(k) {
+		if !isGoZero(m.pks[i].k, part) {
+			return false
+		}
+	}
+	return true
+}
+
+func (m *model) zeroKey() lval {
+	if m.composite() {
+		return lval{v: []lval{zeroBase("int"), zeroBase("string")}}
+	}
+	return zeroBase(m.pk.k.class)
+}
+
+// setKey puts key k into the key fields of a record.
+func (m *model) setKey(rc *rec, k lval) {
+	for i, part := range m.keyParts(k) {
+		rc.vals[m.pks[i].idx] = mval{form: "typed", lv: part}
+	}
+}
+
+// recKey reads the key of a record (ok=false when a key field is missing).
+func (m *model) recKey(rc *rec) (lval, bool) {
+	var parts []lval
+	for _, f := range m.pks {
+		v, ok := rc.vals[f.idx]
+		if !ok {
+			return lval{}, false
+		}
+		parts = append(parts, v.lv)
+	}
+	if len(parts) == 1 {
+		return parts[0], true
+	}
+	return lval{v: parts}, true
+}
 
 // newStruct returns a *T with the given fields set.
 func (m *model) newStruct(vals map[int]lval) reflect.Value {
